@@ -1,6 +1,7 @@
 (* C32 -- termination of the loop's own steps: without further requests the
    loop settles (blocks in its select with nothing pending, or returns) after a
-   bounded number of steps, whatever the select chooses. *)
+   bounded number of steps, whatever the select chooses.  Also: the swapped
+   order of the two halves of Redraw loses a full redraw (witness). *)
 From verif Require Import lib.Base gen.Consts model.C32 proofs.C32_proofs.
 Open Scope nat_scope.
 
@@ -21,7 +22,7 @@ Definition measure (s : st) : nat :=
 Lemma loop_step_decreases : forall s l s',
   loop_label l = true -> step s l = Some s' -> measure s' < measure s.
 Proof.
-  intros [q t f r p] l s' Hl Hs.
+  intros [q t f r p pf pn md] l s' Hl Hs. unfold step, step_ord in Hs.
   destruct l as [o|tt]; [destruct o|destruct tt]; try discriminate Hl;
     destruct p; simpl in Hs; try discriminate Hs;
     repeat match type of Hs with
@@ -33,25 +34,40 @@ Proof.
     repeat match goal with |- context [match ?c with _ => _ end] => destruct c end; simpl; lia.
 Qed.
 
-Definition settled (s : st) : bool := quiescent s || is_returned (pcs s).
+(* the loop's own steps do not touch the state of in-flight Redraw calls *)
+Lemma loop_step_keeps_calls : forall s l s',
+  loop_label l = true -> step s l = Some s' ->
+  mid s' = mid s /\ pendf s' = pendf s /\ pendn s' = pendn s.
+Proof.
+  intros [q t f r p pf pn md] l s' Hl Hs. unfold step, step_ord in Hs.
+  destruct l as [o|tt]; [destruct o|destruct tt]; try discriminate Hl;
+    destruct p; simpl in Hs; try discriminate Hs;
+    repeat match type of Hs with
+           | context [if ?c then _ else _] => destruct c eqn:?
+           | context [match ?c with _ => _ end] => destruct c eqn:?
+           end; try discriminate Hs; inversion Hs; subst; clear Hs; simpl; auto.
+Qed.
+
+Definition settled (s : st) : bool := loop_idle s || is_returned (pcs s).
 
 (* hence, from any state, the loop alone reaches a settled state *)
-Lemma loop_settles_n : forall n s, measure s <= n ->
+Lemma loop_settles_n : forall n s, measure s <= n -> mid s = None ->
   exists ts s', (forall l, In l ts -> loop_label l = true) /\ length ts <= n /\
                 run s ts = Some s' /\ settled s' = true.
 Proof.
-  induction n as [|n IH]; intros s Hm.
+  induction n as [|n IH]; intros s Hm Hmd.
   - destruct (settled s) eqn:E.
     + exists [], s; split; [intros ? []|]; split; [simpl; lia|]; split; [reflexivity|assumption].
     + unfold settled in E; apply orb_false_iff in E as [Eq Er].
-      destruct (loop_progress s Er Eq) as (l & s1 & Hl & Hs).
+      destruct (loop_progress s Er Eq Hmd) as (l & s1 & Hl & Hs).
       pose proof (loop_step_decreases _ _ _ Hl Hs); lia.
   - destruct (settled s) eqn:E.
     + exists [], s; split; [intros ? []|]; split; [simpl; lia|]; split; [reflexivity|assumption].
     + unfold settled in E; apply orb_false_iff in E as [Eq Er].
-      destruct (loop_progress s Er Eq) as (l & s1 & Hl & Hs).
+      destruct (loop_progress s Er Eq Hmd) as (l & s1 & Hl & Hs).
       pose proof (loop_step_decreases _ _ _ Hl Hs) as Hd.
-      destruct (IH s1 ltac:(lia)) as (ts & s' & Hall & Hlen & Hr & Hset).
+      destruct (loop_step_keeps_calls _ _ _ Hl Hs) as (Hk & _ & _).
+      destruct (IH s1 ltac:(lia) ltac:(congruence)) as (ts & s' & Hall & Hlen & Hr & Hset).
       exists (l :: ts), s'; split; [|split; [|split]].
       * intros x [<-|Hx]; auto.
       * simpl; lia.
@@ -59,7 +75,42 @@ Proof.
       * assumption.
 Qed.
 
-Lemma loop_settles : forall s,
+Lemma loop_settles : forall s, mid s = None ->
   exists ts s', (forall l, In l ts -> loop_label l = true) /\ length ts <= measure s /\
                 run s ts = Some s' /\ settled s' = true.
-Proof. intros s; apply loop_settles_n; lia. Qed.
+Proof. intros s Hmd; apply loop_settles_n; [lia|assumption]. Qed.
+
+(* ---------- why the order inside Redraw matters ---------- *)
+(* With the halves swapped (token first, then flag) there is a run in which a
+   Redraw(true) is invoked and completes, the loop is blocked with nothing
+   pending and no call in flight, and no full redraw started after the request:
+   the loop took the token and extracted the flag between the two halves. *)
+Definition swapped_witness : list label :=
+  [Tau TExtract; Obs (CRedrawStart false); Obs CRedrawEnd;
+   Obs (ERedrawCall true); Tau (TRFirst true);
+   Tau TSelToken; Tau TExtract; Obs (CRedrawStart false); Obs CRedrawEnd;
+   Tau TRSecond; Obs OQuiesce].
+
+Lemma swapped_redraw_loses_full :
+  exists ts s,
+    run_ord true init ts = Some s /\ quiescent s = true /\ full s = true /\
+    proj ts = [CRedrawStart false; CRedrawEnd; ERedrawCall true;
+               CRedrawStart false; CRedrawEnd; OQuiesce] /\
+    check_C32 (proj ts) = false.
+Proof. exists swapped_witness; eexists; vm_compute; repeat split; reflexivity. Qed.
+
+(* the same steps are not a run of the model of the code: there the flag is set
+   first and the loop cannot extract it until the token has been sent *)
+Lemma code_order_rejects_swapped_witness :
+  run init swapped_witness = None /\
+  accepts [CRedrawStart false; CRedrawEnd; ERedrawCall true;
+           CRedrawStart false; CRedrawEnd; OQuiesce] = false.
+Proof. vm_compute; split; reflexivity. Qed.
+
+(* the whole-call step is the composition of the invocation and the two halves *)
+Lemma redraw_atomic_is_two_halves : forall s f, mid s = None ->
+  step s (Obs (ERedraw f)) = run s [Obs (ERedrawCall f); Tau (TRFirst f); Tau TRSecond].
+Proof.
+  intros [q t fl r p pf pn md] f H; simpl in H; subst md.
+  destruct f; reflexivity.
+Qed.
